@@ -180,7 +180,65 @@ func scenC11(r *Run, job *Job) {
 			}
 			r.Check(done, "C11.operation-blocked", "%s did not complete", what)
 		}
-		switch t.Weighted(5, 3, 2, 2, 1, 3, 1, 1) {
+		switch t.Weighted(5, 3, 2, 2, 1, 3, 1, 1, 2) {
+		case 8: // two arrivals at the same moment (two goroutines; their lock acquisitions interleave)
+			what = "arrive x2 (" + names[g] + ")"
+			wantErrs := 0
+			for k := 0; k < 2; k++ {
+				if m.arrived == m.count {
+					wantErrs++
+				} else {
+					m.arrived++
+				}
+			}
+			var res [2]error
+			var fin [2]bool
+			arrive := func() error {
+				switch profile {
+				case "gate":
+					return gates[g].WalkThrough()
+				case "initflow":
+					switch g {
+					case 0:
+						return initFlow.ExternalAgentRegistered()
+					case 1:
+						return initFlow.RuntimeReady()
+					case 2:
+						return initFlow.AgentReady()
+					default:
+						return initFlow.RuntimeRestoreReady()
+					}
+				default:
+					switch g {
+					case 0:
+						return invokeFlow.RuntimeReady(nil)
+					case 1:
+						return invokeFlow.RuntimeResponse(nil)
+					default:
+						return invokeFlow.AgentReady()
+					}
+				}
+			}
+			r.NextStep()
+			for k := 0; k < 2; k++ {
+				k := k
+				r.Go(func() { res[k] = arrive(); fin[k] = true })
+			}
+			r.Settle()
+			if !(fin[0] && fin[1]) && r.HeldNow() {
+				r.ReleaseHolds()
+				r.Settle()
+			}
+			r.Check(fin[0] && fin[1], "C11.operation-blocked", "%s did not complete", what)
+			gotErrs := 0
+			for _, e := range res {
+				if e != nil {
+					r.Check(e == core.ErrGateIntegrity, "C11.arrive-verdict", "%s returned %v", what, e)
+					gotErrs++
+				}
+			}
+			r.Check(gotErrs == wantErrs, "C11.arrive-verdict", "%s: %d of the two arrivals were refused, the latch refuses %d (arrived=%d count=%d before)", what, gotErrs, wantErrs, prev[g].arrived, prev[g].count)
+			r.Fault("concurrent-arrivals")
 		case 0: // arrive
 			what = "arrive(" + names[g] + ")"
 			if m.arrived == m.count {
